@@ -152,6 +152,8 @@ func c18Symbolic(v interface{}, ids map[string]int) interface{} {
 	return v
 }
 
+var c18LastCombined string // the last combined format handed to the verifier (starting object of the C03 sweep)
+
 func c18Run(input string) string {
 	var c c18Case
 	if err := json.Unmarshal([]byte(input), &c); err != nil {
@@ -338,6 +340,7 @@ func c18Run(input string) string {
 		cf := common.CombinedFormatForPresentation{SDJWT: parts[0], Disclosures: chosen, HolderVerification: hv}
 		presentation = cf.Serialize()
 	}
+	c18LastCombined = presentation
 	out, err := verifier.Parse(presentation, vopts...)
 	if err != nil {
 		res["out"] = "reject"
